@@ -100,8 +100,10 @@ CHECKS = {
     "C20": dict(
         technique="constant folding of code page / tables + abstract lexer "
                   "head-dispatch table, exhaustive over all keys",
-        category="proof",
-        text="Finite and exhaustive: every obligation of the statement "
+        category="other",
+        text="Finite and exhaustive (not called a proof because four "
+             "obligations fail today and are carried as known findings): "
+             "every obligation of the statement "
              "(256-entry bijective code page, per-character converters, every "
              "table key in the code page, lexed as one token by the lexer's "
              "head-dispatch table, not shadowed by syntax or a duplicate key, "
